@@ -1093,9 +1093,11 @@ func C34(c *Ctx) {
 	}
 	entryRefOwnershipGroup(c, "K13.entry-ref-ownership")
 	gcReinsertAtomicGroup(c, "K4.gc-reinsert-atomic-with-check")
+	failedWriteNoEffect(c, "K1.failed-write-has-no-effect")
 	if fn := c.Fn("", "DB.sendToWriteCh"); fn != nil {
 		for _, e := range need(c, r1, fn, false, "enqueueCommitRequest", Named("NoKV.(*DB).enqueueCommitRequest"), 1) {
 			sentinelGuards(c, r1, fn, "ErrTxnTooBig", e.(ssa.Instruction), "enqueueCommitRequest", 2)
+			oversizeGuard(c, r1, fn, e.(ssa.Instruction))
 			// the throttle loop: enqueue lies behind the exit edge of `blockWrites == 1`
 			found := false
 			for _, b := range fn.Blocks {
@@ -1284,4 +1286,124 @@ func pruneOnlyAtOrBelow(fn *ssa.Function, isCts, isDone func(ssa.Value) bool) bo
 		return !bad
 	}
 	return false
+}
+
+// oversizeGuard: LSM.Set/SetBatch rotate memtables until an entry fits, so an entry that
+// cannot fit an empty memtable must never reach the commit worker: before the enqueue,
+// sendToWriteCh rejects with ErrTxnTooBig on a test that reads Options.MemTableSize
+// (directly or in a same-package predicate it calls).
+func oversizeGuard(c *Ctx, rule string, fn *ssa.Function, enqueue ssa.Instruction) {
+	readsMemTableSize := func(f *ssa.Function) bool {
+		found := false
+		AllInstrs(f, false, func(in ssa.Instruction) {
+			if v, ok := in.(ssa.Value); ok && isFieldLoad(v, "NoKV.Options", "MemTableSize") {
+				found = true
+			}
+		})
+		return found
+	}
+	var mentions func(v ssa.Value, depth int) bool
+	mentions = func(v ssa.Value, depth int) bool {
+		if depth <= 0 || v == nil {
+			return false
+		}
+		if isFieldLoad(v, "NoKV.Options", "MemTableSize") {
+			return true
+		}
+		switch x := v.(type) {
+		case *ssa.UnOp:
+			return mentions(x.X, depth-1)
+		case *ssa.BinOp:
+			return mentions(x.X, depth-1) || mentions(x.Y, depth-1)
+		case *ssa.Convert:
+			return mentions(x.X, depth-1)
+		case *ssa.Call:
+			if h := StaticFn(x.Common()); h != nil && h.Blocks != nil && FuncPkgPath(h) == FuncPkgPath(fn) && readsMemTableSize(h) {
+				c.Touch(h)
+				return true
+			}
+		}
+		return false
+	}
+	ei := ErrorResultIndex(fn)
+	ok := false
+	for _, r := range Returns(fn) {
+		u, isU := RetVal(r, ei).(*ssa.UnOp)
+		if !isU {
+			continue
+		}
+		if g, isG := u.X.(*ssa.Global); !isG || g.Name() != "ErrTxnTooBig" {
+			continue
+		}
+		for _, p := range r.Block().Preds {
+			ifi := ifOf(p)
+			if ifi == nil || !mentions(ifi.Cond, 4) {
+				continue
+			}
+			if blockReaches(p, enqueue.Block()) && !blockReaches(enqueue.Block(), p) {
+				ok = true
+			}
+		}
+	}
+	c.Decide(ok, rule, key(fn, "enqueueCommitRequest<-reject(entry-larger-than-memtable)"), fn.Pos(), 2,
+		"an entry that cannot fit an empty memtable is rejected with ErrTxnTooBig before the enqueue",
+		"no ErrTxnTooBig rejection on Options.MemTableSize precedes the enqueue: an inline entry larger than one memtable (MemTableSize < size < MaxBatchSize) reaches LSM.SetBatch, which rotates memtables forever – that write never returns and every later write queues behind it")
+}
+
+// failedWriteNoEffect: once applyRequests has inserted a batch into the memtable, nothing that
+// fails afterwards may be reported to the writers as the outcome of their write – the write
+// has taken effect (readers see it, it survives a clean reopen).  In commitWorker, the failure
+// edge of every fallible step that FOLLOWS applyRequests in the same iteration must not reach
+// finishCommitRequests before the next batch is fetched.
+func failedWriteNoEffect(c *Ctx, rule string) {
+	c.Rule(rule, "DB.commitWorker: the failure edge of a wal.Sync that follows applyRequests in the same iteration does not reach finishCommitRequests (the entries are already visible in the memtable; reporting the sync failure as the write's error makes a failed write take effect)")
+	fn := c.Fn("", "DB.commitWorker")
+	if fn == nil {
+		return
+	}
+	apply := need(c, rule, fn, false, "applyRequests", Named("NoKV.(*DB).applyRequests"), 1)
+	next := Calls(fn, false, Named("NoKV.(*DB).nextCommitBatch"))
+	finish := Calls(fn, false, Named("NoKV.(*DB).finishCommitRequests"))
+	syncs := Calls(fn, false, Named("wal.(*Manager).Sync"))
+	n := 0
+	for i, sy := range syncs {
+		after := false
+		for _, a := range apply {
+			if r, _ := CutReach(fn, a.(ssa.Instruction), sy.(ssa.Instruction), instrs(next), nil); r {
+				after = true
+			}
+		}
+		if !after {
+			continue
+		}
+		n++
+		ev := ErrResult(sy)
+		k := key(fn, fmt.Sprintf("wal.Sync[%d]#failure-after-apply-not-reported-as-write-error", i+1))
+		if ev == nil {
+			c.Fail(rule, k, sy.Pos(), 1, "the result of a wal.Sync after applyRequests is discarded")
+			continue
+		}
+		reported := false
+		for _, e := range NilEdges(fn, FlowSet(ev)) {
+			blk := e.NonNil[1]
+			if len(blk.Instrs) == 0 {
+				continue
+			}
+			for _, f := range finish {
+				if f.Block() == blk {
+					reported = true
+					continue
+				}
+				// a path that fetches the next batch, or retries the sync, is not a report of this failure
+				if r, _ := CutReach(fn, blk.Instrs[0], f.(ssa.Instruction), append(instrs(next), instrs(syncs)...), nil); r {
+					reported = true
+				}
+			}
+		}
+		c.Decide(!reported, rule, k, sy.Pos(), len(finish)+2, "a sync failure after the memtable insert is not handed to the writers as their write's error",
+			"the failure edge of this wal.Sync reaches finishCommitRequests although applyRequests has already inserted the batch: the writers get an error for a write that readers see and that survives a clean reopen")
+	}
+	if n == 0 {
+		c.Pass(rule, key(fn, "no-fallible-step-after-apply"), fn.Pos(), len(syncs)+1, "no wal.Sync follows applyRequests in the same iteration")
+	}
 }
